@@ -71,7 +71,7 @@ void abort_run(int res)
 // thread stacks: fixed region, slot per simulated thread id -> pthread_t values and stack
 // addresses repeat across runs and processes
 static const uintptr_t STACK_BASE = 0x7d0000000000ULL;
-static const size_t STACK_SLOT = 256 * 1024;
+static const size_t STACK_SLOT = 2048 * 1024;  // reserved, not committed: deep recursion (releasing a chain of thousands of objects) must fit
 static const int MAX_THREADS = 2048;
 static bool stacks_mapped = false;
 static int (*real_pthread_create)(pthread_t *, const pthread_attr_t *, void *(*)(void *), void *);
